@@ -433,6 +433,19 @@ func specials0() map[string]*gs.Schema {
 		"Dog":    {Kind: gs.KObject, XClass: "com.acme.Dog", AllOf: []*gs.Schema{{Kind: gs.KRef, Ref: "Pet"}, {Kind: gs.KObject, Props: []gs.Prop{{Name: "bark", Schema: str()}}}}},
 		"Cat":    {Kind: gs.KObject, AllOf: []*gs.Schema{{Kind: gs.KRef, Ref: "Pet"}, {Kind: gs.KObject, Props: []gs.Prop{{Name: "lives", Schema: &gs.Schema{Kind: gs.KInteger}}}}}},
 		"Kennel": {Kind: gs.KObject, Props: []gs.Prop{{Name: "resident", Schema: &gs.Schema{Kind: gs.KRef, Ref: "Pet"}}, {Name: "all", Schema: &gs.Schema{Kind: gs.KArray, Items: &gs.Schema{Kind: gs.KRef, Ref: "Pet"}}}}},
+		// bounds whose value is zero are bounds (only the empty string, no item, nothing above zero)
+		"ZeroBounds": {Kind: gs.KObject, Props: []gs.Prop{
+			{Name: "emptyOnly", Schema: &gs.Schema{Kind: gs.KString, MaxLen: gs.I(0)}},
+			{Name: "anyLength", Schema: &gs.Schema{Kind: gs.KString, MinLen: gs.I(0)}},
+			{Name: "noItems", Schema: &gs.Schema{Kind: gs.KArray, Items: &gs.Schema{Kind: gs.KInteger}, MaxItems: gs.I(0)}},
+			{Name: "notPositive", Schema: &gs.Schema{Kind: gs.KInteger, Max: gs.I(0)}},
+			{Name: "negative", Schema: &gs.Schema{Kind: gs.KInteger, Max: gs.I(0), XMax: true}},
+			{Name: "notNegative", Schema: &gs.Schema{Kind: gs.KInteger, Min: gs.I(0)}},
+			{Name: "positive", Schema: &gs.Schema{Kind: gs.KInteger, Min: gs.I(0), XMin: true}},
+			{Name: "emptyOnlyRequired", Schema: &gs.Schema{Kind: gs.KString, MaxLen: gs.I(0)}, Required: true},
+			{Name: "emptyStrings", Schema: &gs.Schema{Kind: gs.KArray, Items: &gs.Schema{Kind: gs.KString, MaxLen: gs.I(0)}}},
+			{Name: "emptyValues", Schema: &gs.Schema{Kind: gs.KMap, Addl: &gs.Schema{Kind: gs.KString, MaxLen: gs.I(0), Pattern: "^$"}}}}},
+		"EmptyName": {Kind: gs.KString, MaxLen: gs.I(0)},
 		// named types of every string format (aliases of formatted types), and an object, an array and a map holding them
 		"FormatBag": formatBag(),
 		"Durations": {Kind: gs.KArray, Items: &gs.Schema{Kind: gs.KString, Format: "duration"}},
